@@ -288,41 +288,58 @@ def r_minimize_terms(ck: Checker) -> None:
 
 
 # ------------------------------------------------------------------------------------------------ C01
+PASS_PROPS = {
+    "CleanupTranslator": "C08", "UnusedTranslator": "C09", "LiteralDuplicationTranslator": "C10", "SymmetryTranslator": "C11", "MinMaxAggregator": "C12",
+    "SumAggregator": "C13", "MathSimplification": "C14", "InlineTranslator": "C15", "ProjectionTranslator": "C16",
+}
+
+
+def _api_pass(cname: str):  # type: ignore[no-untyped-def]
+    def run(ck: Checker) -> None:
+        func = ck.func("api:optimize")
+        p_prg, p_in, p_out = func.params()[:3]
+        found = False
+        for call in calls_in(func, lambda c: True):
+            res = ck.prg.resolve_callee(func, call.func) or ""
+            if res not in ck.prg.classes or res.split(":")[1] != cname:
+                continue
+            found = True
+            init = ck.prg.funcs.get(f"{res}.__init__")
+            ck.need(init is not None, f"{cname} has a constructor")
+            params = init.params()[1:]  # type: ignore[union-attr]
+            bound = dict(zip(params, [unparse(a) for a in call.args]))
+            bound.update({kw.arg: unparse(kw.value) for kw in call.keywords if kw.arg})
+            if "input_predicates" in params:
+                ck.add(f"{cname}(input_predicates=...)", bound.get("input_predicates") == p_in, func, call, f"constructor parameter input_predicates is bound to `{bound.get('input_predicates')}`",
+                       "swapped or dropped declarations make the pass reason closed-world about instance data, or seed its name generator with the wrong vocabulary")
+            if "output_predicates" in params:
+                ck.add(f"{cname}(output_predicates=...)", bound.get("output_predicates") == p_out, func, call, f"constructor parameter output_predicates is bound to `{bound.get('output_predicates')}`", "outputs must be protected from removal")
+            if "prg" in params:
+                ck.add(f"{cname}(prg=...)", bound.get("prg") == "input_", func, call, f"analysed program is `{bound.get('prg')}`", "a pass must analyse the program it rewrites (the current pipeline value)")
+            ck.add(f"{cname} is constructed anew in every round", enclosing_loop(func, call) is not None, func, call, f"constructor call inside the `while` loop: {enclosing_loop(func, call) is not None}",
+                   "translators accumulate state (known implications, usage, names) that is only valid for the program of that round: reusing one across rounds applies stale facts to a changed program")
+        ck.add(f"{cname} is part of the pipeline", found, func, func.node, f"constructor call found: {found}", "", nontrivial=False)
+
+    return run
+
+
 def r_api_interface(ck: Checker) -> None:
-    """FLOW: IN and OUT reach every pass that needs them, un-swapped; every pass consumes the normal form"""
     func = ck.func("api:optimize")
-    it = ck.interp(func)
-    p_prg, p_in, p_out = func.params()[:3]
+    p_prg = func.params()[0]
     need_in = {"CleanupTranslator", "UnusedTranslator", "LiteralDuplicationTranslator", "SymmetryTranslator", "MinMaxAggregator", "SumAggregator", "InlineTranslator", "ProjectionTranslator"}
     need_out = {"UnusedTranslator", "InlineTranslator"}
     seen_in, seen_out = set(), set()
-    for call in calls_in(func, lambda c: True):
-        res = ck.prg.resolve_callee(func, call.func) or ""
-        if res not in ck.prg.classes:
-            continue
-        cname = res.split(":")[1]
-        init = ck.prg.funcs.get(f"{res}.__init__")
-        if init is None:
-            continue
-        params = init.params()[1:]
-        bound = dict(zip(params, [unparse(a) for a in call.args]))
-        bound.update({kw.arg: unparse(kw.value) for kw in call.keywords if kw.arg})
+    for cname in PASS_PROPS:
+        qual = [q for q in ck.prg.classes if q.split(":")[1] == cname]
+        ck.need(len(qual) == 1, f"class {cname} exists")
+        init = ck.prg.funcs.get(f"{qual[0]}.__init__")
+        params = init.params() if init is not None else []
         if "input_predicates" in params:
-            ok = bound.get("input_predicates") == p_in
             seen_in.add(cname)
-            ck.add(f"{cname}(input_predicates=...)", ok, func, call, f"constructor parameter input_predicates is bound to `{bound.get('input_predicates')}`", "swapped or dropped declarations make a pass reason closed-world about instance data / remove outputs")
         if "output_predicates" in params:
-            ok = bound.get("output_predicates") == p_out
             seen_out.add(cname)
-            ck.add(f"{cname}(output_predicates=...)", ok, func, call, f"constructor parameter output_predicates is bound to `{bound.get('output_predicates')}`", "")
-        if "prg" in params:
-            ok = bound.get("prg") == "input_"
-            ck.add(f"{cname}(prg=...)", ok, func, call, f"analysed program is `{bound.get('prg')}`", "a pass must analyse the program it rewrites (the current pipeline value)")
-        # constructed inside the fixpoint loop: per-round state only
-        ck.add(f"{cname} is constructed anew in every round", enclosing_loop(func, call) is not None, func, call, f"constructor call inside the `while` loop: {enclosing_loop(func, call) is not None}",
-               "translators accumulate state (known implications, usage, names) that is only valid for the program of that round: reusing one across rounds applies stale facts to a changed program")
-    ck.add("every pass that reasons about the interface receives IN", seen_in == need_in, func, func.node, f"classes with an input_predicates parameter: {sorted(seen_in)}", "")
-    ck.add("passes that remove things receive OUT", seen_out == need_out, func, func.node, f"classes with an output_predicates parameter: {sorted(seen_out)}", "")
+    ck.add("every pass that reasons about the interface has an input_predicates parameter", seen_in == need_in, func, func.node, f"classes with an input_predicates parameter: {sorted(seen_in)}", "")
+    ck.add("passes that remove things have an output_predicates parameter", seen_out == need_out, func, func.node, f"classes with an output_predicates parameter: {sorted(seen_out)}", "")
     first = [n for n in find_nodes(func.node, lambda n: isinstance(n, (ast.Assign, ast.AnnAssign))) if unparse(getattr(n, "target", None) or n.targets[0]) == "input_"]  # type: ignore[attr-defined]
     ck.need(len(first) >= 2, "pipeline variable assignments")
     ck.add("the pipeline starts from preprocess(prg)", unparse(first[0].value) == f"preprocess({p_prg})", func, first[0], f"`{fmt(first[0])}`", "every pass assumes the normal form")  # type: ignore[attr-defined]
@@ -339,4 +356,4 @@ RULES = [
     Rule("C02.TABLE.unify", ("C02", "C13", "C12", "C15", "C01"), r_unify_table),
     Rule("C02.minimize-terms", ("C02", "C05", "C01"), r_minimize_terms),
     Rule("C01.api-interface", ("C01",), r_api_interface),
-]
+] + [Rule(f"C01.api.{cname}", ("C01", prop) + (("C07",) if cname == "UnusedTranslator" else ()), _api_pass(cname)) for cname, prop in PASS_PROPS.items()]
